@@ -86,7 +86,8 @@ TEMPLATE = r'''
 //@ ensures err == nil ==> forall s *SectionProperties :: {s.%(H)sReferences} allocated(s) && old(isFirstSect(d.Body.Elements, s)) && old(%(h)sNone(s.%(H)sReferences, string(%(kind)s))) ==> len(s.%(H)sReferences) == old(len(s.%(H)sReferences)) + 1 && fresh(s.%(H)sReferences[old(len(s.%(H)sReferences))]) && (forall q int :: 0 <= q && q < old(len(s.%(H)sReferences)) ==> s.%(H)sReferences[q] == old(s.%(H)sReferences[q])) && %(h)sOneAt(s.%(H)sReferences, old(len(s.%(H)sReferences)), string(%(kind)s), s.%(H)sReferences[old(len(s.%(H)sReferences))].ID) && relResolves(%(rels)s, s.%(H)sReferences[old(len(s.%(H)sReferences))].ID, %(relq)s, %(file)s)
 // (c) existing reference of the kind (the first one, at k): same list of the same objects, that reference now resolves to the
 //     part's relationship, no other reference changed its id; if the kind was referenced at most once it still is, exactly once
-//@ ensures err == nil ==> forall s *SectionProperties, k int :: {s.%(H)sReferences[k]} allocated(s) && old(isFirstSect(d.Body.Elements, s)) && old(%(h)sFirstAt(s.%(H)sReferences, k, string(%(kind)s))) ==> len(s.%(H)sReferences) == old(len(s.%(H)sReferences)) && (forall q int :: 0 <= q && q < len(s.%(H)sReferences) ==> s.%(H)sReferences[q] == old(s.%(H)sReferences[q])) && relResolves(%(rels)s, s.%(H)sReferences[k].ID, %(relq)s, %(file)s)
+//@ ensures err == nil ==> forall s *SectionProperties, k int :: {s.%(H)sReferences[k]} allocated(s) && old(isFirstSect(d.Body.Elements, s)) && old(%(h)sFirstAt(s.%(H)sReferences, k, string(%(kind)s))) ==> s.%(H)sReferences[k] == old(s.%(H)sReferences[k]) && len(s.%(H)sReferences) == old(len(s.%(H)sReferences)) && (forall q int :: 0 <= q && q < len(s.%(H)sReferences) ==> s.%(H)sReferences[q] == old(s.%(H)sReferences[q]))
+//@ ensures err == nil ==> forall s *SectionProperties, k int :: {s.%(H)sReferences[k]} allocated(s) && old(isFirstSect(d.Body.Elements, s)) && old(%(h)sFirstAt(s.%(H)sReferences, k, string(%(kind)s))) ==> s.%(H)sReferences[k] == old(s.%(H)sReferences[k]) && relResolves(%(rels)s, s.%(H)sReferences[k].ID, %(relq)s, %(file)s)
 //@ ensures err == nil ==> forall s *SectionProperties, k int :: {s.%(H)sReferences[k]} allocated(s) && old(isFirstSect(d.Body.Elements, s)) && old(%(h)sFirstAt(s.%(H)sReferences, k, string(%(kind)s))) ==> s.%(H)sReferences[k] == old(s.%(H)sReferences[k]) && (forall r *%(T)s :: allocated(r) && r != old(s.%(H)sReferences[k]) ==> r.ID == old(r.ID))
 //@ ensures err == nil ==> forall s *SectionProperties, k int :: {s.%(H)sReferences[k]} allocated(s) && old(isFirstSect(d.Body.Elements, s)) && old(%(h)sFirstAt(s.%(H)sReferences, k, string(%(kind)s))) && old(%(h)sAtMostOne(s.%(H)sReferences, string(%(kind)s))) ==> %(h)sOneAt(s.%(H)sReferences, k, string(%(kind)s), s.%(H)sReferences[k].ID)
 //@ ensures err == nil && (old(noSect(d.Body.Elements)) || (forall s *SectionProperties :: allocated(s) && old(isFirstSect(d.Body.Elements, s)) ==> old(%(h)sNone(s.%(H)sReferences, string(%(kind)s))))) ==> forall r *%(T)s :: allocated(r) ==> r.ID == old(r.ID)
